@@ -19,6 +19,7 @@ Dispose == /\ IsEv("dispose") /\ ~gone
            /\ LET e == Expect(ocls, oreg, E.what) IN
               CASE e.kind = "release" -> E.exc = "" /\ E.freed = 1 /\ E.fin <= 1 /\ gone' = TRUE        \* released, exactly once
                 [] e.kind = "ignored" -> E.exc = "" /\ E.freed = 0 /\ E.same = 1 /\ gone' = FALSE
+                [] e.kind = "swap" -> E.exc = "" /\ E.freed = 0 /\ E.clsok = 1 /\ gone' = FALSE
                 [] e.kind = "ok" -> E.exc = "" /\ E.freed = 0 /\ gone' = FALSE
                 [] e.kind = "refuse" -> E.exc \in e.excs /\ E.freed = 0 /\ E.same = 1 /\ E.fin = 0 /\ gone' = FALSE     \* raised, object intact
            /\ UNCHANGED <<ocls, oreg>>
